@@ -44,3 +44,42 @@ pub fn lexical_parse_stub<N: FromLexical>(bytes: &[u8]) -> LResult<N> {
         }
     }
 }
+
+// ---------------------------------------------------------------------------
+// Parameters::next_data::<T>  ->  "returns any T, or a documented error"
+// (rule 2 of DESIGN.md: decode once in C04/C07, stub the decode in handler harnesses)
+// ---------------------------------------------------------------------------
+use scpi::error::{Error, ErrorCode};
+use scpi::parser::parameters::Parameters;
+use scpi::parser::tokenizer::Token;
+
+/// 0 = Ok(value); otherwise the SCPI error number to return (e.g. -222, -109, -104)
+pub static mut STUB_ND_ERR: i16 = 0;
+pub static mut STUB_ND_U8: u8 = 0;
+pub static mut STUB_ND_U16: u16 = 0;
+/// how often the stub was called (a handler must pull exactly the parameters it documents)
+pub static mut STUB_ND_CALLS: u8 = 0;
+
+pub fn next_data_stub<'a, 'b, T>(_this: &mut Parameters<'a, 'b>) -> Result<T, Error>
+where
+    T: TryFrom<Token<'a>, Error = Error>,
+    'a: 'a,
+    'b: 'b,
+{
+    unsafe {
+        STUB_ND_CALLS = STUB_ND_CALLS.wrapping_add(1);
+        if STUB_ND_ERR != 0 {
+            return Err(match ErrorCode::get_error(STUB_ND_ERR) {
+                Some(c) => Error::new(c),
+                None => Error::new(ErrorCode::DataOutOfRange),
+            });
+        }
+        if core::mem::size_of::<T>() == 1 {
+            let v = STUB_ND_U8;
+            Ok(core::mem::transmute_copy::<u8, T>(&v))
+        } else {
+            let v = STUB_ND_U16;
+            Ok(core::mem::transmute_copy::<u16, T>(&v))
+        }
+    }
+}
